@@ -35,13 +35,17 @@ MANIFEST = dict(
     category="model_checking",
     technique="TLC: explicit TLA+ coding functions + one-sample/id state machine (SampleCoding.tla) checked exhaustively, "
               "complete case space replayed through the real guns/providers against programmable in-process HTTP and gRPC "
-              "targets, recorded begin/report/end traces validated by TraceSampleCoding.tla",
+              "targets, recorded begin/report/end traces validated by TraceSampleCoding.tla; sample-object life-cycle machine "
+              "(SamplePool.tla) checked exhaustively and bound by runs through the real phout aggregator (written file = observable)",
     design_ref="DESIGN.md §4 C10",
     text="Status/errno/tag coding is a finite function (every HTTP status 200-599, every gRPC code, every failure kind, every "
          "auto-tag setting x URI shape): the function is written once in TLA+, TLC enumerates its whole domain and decides on "
          "the samples the real guns reported; 'exactly one sample per request on every path' and 'ids unique under any "
          "interleaving' are a state machine checked exhaustively for 2 instances and validated on recorded traces of the "
-         "real guns (1 instance per case; 8 instances x 500 concurrent acquisitions).",
+         "real guns (1 instance per case; 8 instances x 500 concurrent acquisitions). Samples are pooled objects: 'no residue of "
+         "the previous use reaches the output' is an invariant of the Acquire/fill/Report/write/release machine (all interleavings "
+         "of 2 instances, the aggregator and 3 objects) and is validated on the phout files written by the real aggregator for "
+         "TLC-generated shot sequences (every kind followed by every kind) and for a pool run by the real engine with discarded shots.",
     note="net code is only decided as zero / non-zero (the statement's wording); failed scenario steps carry the extra tag "
          "__EMPTY__ after scenario.step (first tag compared); gRPC: untagged ammo and the proto code of unknown-method / "
          "ill-typed-payload shots are not fixed by the statement (only one-sample is checked there). Client timeout 150 ms is "
